@@ -27,7 +27,6 @@ import (
 //	   truncated options still satisfy minValues
 //	S4 per key, the emitted requirements admit exactly what the in-memory requirement admits (Coq oracle, CaseEmit)
 //	S5 a resolved custom label is admitted by its requirement; labels, taints, hash and owner come from the NodePool
-const kfMinOverhead = "min-daemon-overhead-ignores-groups-without-daemons"
 
 func milliEq(a, b corev1.ResourceList) bool {
 	am, bm := sk.Milli(a), sk.Milli(b)
@@ -110,14 +109,35 @@ func solveClaim(c *kit.Ctx, nc *provscheduling.NodeClaim, np *v1.NodePool, cfg s
 			}
 		}
 	}
-	want := resources.Merge(resources.RequestsForPods(nc.Pods...), minOverhead)
-	if !milliEq(want, nc.Spec.Resources.Requests) {
-		kf := ""
-		if emptyGroup && len(relevant) > 1 {
-			kf = kfMinOverhead
+	// "requests cover the pods placed on it plus daemon overhead": at least pods + the minimum overhead over the groups
+	// that still have an instance type, at most pods + the maximum one (the code takes the minimum over the NON-EMPTY
+	// groups, which lies in between; demanding exactly the minimum would demand more than the property states)
+	maxOverhead := corev1.ResourceList{}
+	for _, g := range relevant {
+		for k, q := range g {
+			if cur, ok := maxOverhead[k]; !ok || q.Cmp(cur) > 0 {
+				maxOverhead[k] = q.DeepCopy()
+			}
 		}
-		fail(fmt.Sprintf("%s: Spec.Resources.Requests = %v, expected pods %v + min daemon overhead %v over %d group(s)", where,
-			sk.Milli(nc.Spec.Resources.Requests), sk.Milli(resources.RequestsForPods(nc.Pods...)), sk.Milli(minOverhead), len(relevant)), kf)
+	}
+	pods := resources.RequestsForPods(nc.Pods...)
+	lo, hi := resources.Merge(pods, minOverhead), resources.Merge(pods, maxOverhead)
+	within := true
+	for k, q := range nc.Spec.Resources.Requests {
+		l, h := lo[k], hi[k]
+		if q.Cmp(l) < 0 || q.Cmp(h) > 0 {
+			within = false
+		}
+	}
+	for k, l := range lo {
+		if q, ok := nc.Spec.Resources.Requests[k]; (!ok && !l.IsZero()) || (ok && q.Cmp(l) < 0) {
+			within = false
+		}
+	}
+	_ = emptyGroup
+	if !within {
+		fail(fmt.Sprintf("%s: Spec.Resources.Requests = %v does not cover pods %v + daemon overhead (min %v, max %v over %d group(s))", where,
+			sk.Milli(nc.Spec.Resources.Requests), sk.Milli(pods), sk.Milli(minOverhead), sk.Milli(maxOverhead), len(relevant)), "")
 	}
 	c.Count(fmt.Sprintf("solve:groups=%d", min(len(relevant), 3)))
 
